@@ -350,7 +350,7 @@ func (r *replayer) build(term string, t types.Type, depth int) (string, bool) {
 			return "", false
 		}
 		if p.Sign() == 0 {
-			return "nil", true
+			return fmt.Sprintf("(%s)(nil)", r.typeStr(t)), true
 		}
 		switch typeKey(t) {
 		case "Pbufio_Reader":
@@ -371,7 +371,7 @@ func (r *replayer) build(term string, t types.Type, depth int) (string, bool) {
 			return "", false
 		}
 		if h.Sign() == 0 {
-			return "nil", true
+			return fmt.Sprintf("(%s)(nil)", r.typeStr(t)), true
 		}
 		if typeKey(t) == "io_Reader" {
 			return r.buildReader(vc.canon("rd", term), false)
